@@ -160,7 +160,7 @@ def wire_step(host: bool, k: int, w: bool, system: int, session: int, start: int
 OBLIGATIONS = [
     dict(name="primary_step", fn="primary_step", timeout=900,
          parts={"quick": ["stream // 16 == %d and function < 32" % i for i in range(8)],
-                "thorough": ["stream // 8 == %d" % i for i in range(16)]},
+                "thorough": ["stream // 4 == %d and function %s 128" % (i, op) for i in range(32) for op in ("<", ">=")]},
          functions=["GemHandler._on_message_received (COMMUNICATING)", "SecsHandler._handle_stream_function/_handle_unknown_functions",
                     "CallbackHandler lookup", "built-in _on_sXXfYY handlers of GemEquipmentHandler / GemHostHandler with an empty body"],
          bounds="host and equipment handler; every stream 0..127 and every odd function (quick: < 32, thorough: < 256), W-bit, all 2^32 "
